@@ -2,7 +2,7 @@ package main
 
 // C09: recording sub-command for the parser / printer property.
 //
-//	vh c09parse -in cases.ndjson -out trace.ndjson
+//	vh c09parse -in cases.ndjson -out trace.ndjson [-light light.ndjson] [-noast]
 //
 // A case is {id, src | srcB, vars?: [[byte...]...], tn?: bool}. The source is
 // handed to the real gojq.Parse; the record says what happened:
@@ -241,6 +241,7 @@ func cmdC09Parse(args []string) error {
 	in := fs.String("in", "", "cases ndjson")
 	out := fs.String("out", "", "trace ndjson")
 	noast := fs.Bool("noast", false, "do not include the AST")
+	light := fs.String("light", "", "also write the records without ast / ast2 (for the classification) to this file")
 	par := fs.Int("j", 8, "parallel workers")
 	fs.Parse(args)
 	q, err := gojq.Parse("tonumber")
@@ -265,5 +266,24 @@ func cmdC09Parse(args []string) error {
 			return err
 		}
 	}
-	return w.close()
+	if err := w.close(); err != nil {
+		return err
+	}
+	if *light == "" {
+		return nil
+	}
+	lw, err := newNDWriter(*light)
+	if err != nil {
+		return err
+	}
+	for _, r := range recs {
+		delete(r, "ast")
+		if rt, ok := r["rt"].(vlib.M); ok {
+			delete(rt, "ast2")
+		}
+		if err := lw.write(r); err != nil {
+			return err
+		}
+	}
+	return lw.close()
 }
